@@ -313,10 +313,48 @@ def _refs_before(img, ctx, at):
     return sum(1 for o in ctx.rm1 if o < at and o < len(img) and (img[o] & 0x80) and (img[o] & 0x7F) in _SLOT_CODES)
 
 
+def _marshal_long(v, flag_ref=False):
+    digits = []
+    a = abs(v)
+    while a:
+        digits.append(a & 0x7FFF)
+        a >>= 15
+    n = len(digits) if v >= 0 else -len(digits)
+    return bytes([ord("l") | (0x80 if flag_ref else 0)]) + _i32(n) + b"".join(struct.pack("<H", d) for d in digits)
+
+
+def _eq_collide(rng, base_index):
+    """A set whose members all have ONE hash value and are pairwise equal up to their last item: (D_i, x_i) with every
+    D_i its own doubling DAG of 2-tuples (equal, but no object shared, so no identity shortcut) and x_i different
+    ints congruent modulo 2**61-1.  Hashing stays cheap; building the set compares every member with every earlier
+    one and each comparison walks 2**levels leaves."""
+    levels, members = rng.choice([(14, 440), (16, 300), (18, 80)])
+    idx = base_index
+    out = []
+    for i in range(members):
+        inner = bytes([0xA9, 2]) + b"NN"  # small tuple | FLAG_REF; reference indices are handed out outside-in
+        for k in range(1, levels):
+            inner = bytes([0xA9, 2]) + inner + b"r" + _i32(idx + levels - k)
+        idx += levels
+        out.append(b")\x02" + inner + _marshal_long(7 + i * (2 ** 61 - 1)))
+    kind = rng.choice(["<", ">"])
+    return kind.encode() + _i32(members) + b"".join(out), {"levels": levels, "members": members,
+                                                           "trigger": "set" if kind == "<" else "frozenset"}
+
+
 def _ref_bomb(rng, base_index, shape, plain=False):
     """Adversarial *reference* fields: objects that are small in the file but huge (DAG) or deep (chain) once the
     3.4+ reference table is followed.  Returns bytes of one tuple object holding the levels and a trigger."""
-    if shape == "ref_dag":
+    if shape == "eq_collide":
+        return _eq_collide(rng, base_index)
+    leaf = None
+    if shape == "ref_dag_leaf":
+        # a DAG small enough for any node budget (2**n nodes) whose ONE leaf is expensive to hash: a long of
+        # ~100000 bits (CPython rehashes all digits each time), a Python-2 unicode (hashed by Python code)
+        n = rng.choice([16, 20, 22, 22])
+        width = 2
+        leaf = rng.choice(["long", "long", "long", "unicode", "bytes"])
+    elif shape == "ref_dag":
         n = rng.choice([34, 44, 60])
         width = 2
     else:
@@ -324,6 +362,22 @@ def _ref_bomb(rng, base_index, shape, plain=False):
         width = 1
     parts = []
     extra_items = 0
+    if leaf is not None:
+        if leaf == "long":
+            parts.append(_marshal_long((1 << rng.choice([20000, 99000, 99000])) - 3, flag_ref=True))
+        elif leaf == "unicode":
+            txt = rng.choice([b"abc", b"x" * 40000])
+            parts.append(bytes([ord("u") | 0x80]) + _i32(len(txt)) + txt)
+        else:
+            parts.append(bytes([ord("s") | 0x80]) + _i32(30000) + b"y" * 30000)
+        extra_items = 1
+        for k in range(n):
+            parts.append(bytes([ord(")") | 0x80, width]))
+            parts.append((b"r" + _i32(base_index + k)) * width)  # level k has index base_index + 1 + k
+        last = b"r" + _i32(base_index + n)
+        trigger = rng.choice(["set", "frozenset", "dict"])
+        tail = {"set": b"<" + _i32(1) + last, "frozenset": b">" + _i32(1) + last, "dict": b"{" + last + b"T" + b"0"}[trigger]
+        return b"(" + _i32(n + 2) + b"".join(parts) + tail, {"levels": n, "trigger": trigger, "leaf": leaf}
     if shape == "ref_dag" and rng.chance(1, 2):
         # first a set of many EQUAL small tuples: all but one die at once, and their addresses are handed to the
         # tuples created next - a size memo keyed on id() without keeping its objects alive inherits stale entries
@@ -362,19 +416,21 @@ def f_nesting_bomb(rng, img, ctx):
     # reference bombs are rare on purpose: each DAG instance burns its whole CPU budget (twice: batch + isolation)
     shape = rng.weighted([("small_tuple", 180), ("tuple", 180), ("list", 180), ("dict", 180), ("set", 180),
                           ("ref_tuple", 180), ("long_digits", 180), ("code", 180), ("big_int", 120), ("ref_dag", 1),
-                          ("ref_chain", 5), ("ref_dag_plain", 120), ("ref_chain_plain", 60), ("text_number", 150)])
+                          ("ref_dag_leaf", 10), ("eq_collide", 6), ("ref_chain", 5), ("ref_dag_plain", 120), ("ref_chain_plain", 60), ("text_number", 150)])
     # *_plain: the DAG / chain is just a value (a constant, a name, a code-object field) - nothing in the loader
     # hashes, prints or compares it, so the unchanged tree handles it instantly; it costs nothing to try often
     plain = shape.endswith("_plain")
     if plain:
         shape = shape[:-6]
     extra = {}
-    if shape in ("ref_dag", "ref_chain"):
+    if shape in ("ref_dag", "ref_chain", "ref_dag_leaf", "eq_collide"):
         # exact indices when the bomb replaces the whole payload (first object after the header), estimated
         # indices when it replaces an inner object
-        whole = rng.chance(1, 2) and not plain
+        whole = (rng.chance(1, 2) and not plain) or shape == "eq_collide"
         if whole:
             hl = rng.choice([8, 12, 16])
+            if shape in ("ref_dag_leaf", "eq_collide") and ctx.objmap and img[:min(ctx.objmap)] == ctx.base[:min(ctx.objmap)]:
+                hl = min(ctx.objmap)  # the header length of this file's version
             bomb, extra = _ref_bomb(rng, 0, shape, plain)
             out = img[:hl] + bomb
             extra.update({"whole_payload": True, "header_len": hl})
@@ -600,9 +656,9 @@ def synth_shared_tables(rng):
     """3.11+ layout: many small code objects whose localsplus tables (names and kinds) are back-references to ONE
     large shared object - per-code-object work that is quadratic in the table length multiplies up"""
     magic = rng.choice([3495, 3531, 3571])
-    ln = rng.choice([2000, 20000, 40000])
-    n = rng.choice([3, 6, 12])
-    big = bytes([0xF3]) + struct.pack("<i", ln) + bytes([rng.choice([0xA0, 0xE0, 0x80, 0xC0])]) * ln  # 's' | FLAG_REF -> slot 0
+    ln = rng.choice([2000, 20000, 32000, 40000])
+    n = rng.choice([3, 6, 12, 2000])  # 2000: as many code objects as fit (each keeps its own copy of the split tables?)
+    big = bytes([0xF3]) + struct.pack("<i", ln) + bytes([rng.choice([0xA0, 0xE0, 0x80, 0xC0, 0x60])]) * ln  # 's' | FLAG_REF -> slot 0
     # (bytes >= 0x80 that are not valid UTF-8, so that the shared table stays a bytes object: its items are ints
     # with the CO_FAST_LOCAL / CELL / FREE bits set)
 
@@ -611,6 +667,7 @@ def synth_shared_tables(rng):
                 b"r\x00\x00\x00\x00" + b"r\x00\x00\x00\x00" + b"z\x01f" + b"z\x01m" + b"z\x01m" +
                 struct.pack("<i", 1) + b"s\x00\x00\x00\x00" + b"s\x00\x00\x00\x00")
 
+    n = min(n, (64 * 1024 - 16 - 5 - len(big)) // len(code()))
     body = b"(" + struct.pack("<i", n + 1) + big + code() * n
     data = struct.pack("<H", magic) + b"\r\n" + b"\x00" * 12 + body
     return data[: 64 * 1024], {"kind": "not_bytecode", "what": "shared_localsplus_tables", "magic": magic,
